@@ -62,7 +62,7 @@ def check(ctx, F, cfg, P="C17", clauses="all"):
         if not shape_ok:
             continue
         # 3. body written only by cbor_serialize into the tail
-        foreign = [e for e in v.effects if e not in ops and e not in v.encoders and e not in v.status_writes]
+        foreign = [e for e in v.effects if e not in ops and e not in v.encoders and e not in v.status_writes and e not in v.body_reads]
         ctx.oblige(key + "|only-encoder-writes", not foreign and len(v.encoders) <= 1 and all(len(e.args) == 2 and e.args[1] == v.data_place for e in v.encoders),
                    "something other than cbor_serialize(payload, <tail after the status byte>) touches the buffer: %s" % ["%s(%s)" % (S.short_fn(e.callee), ", ".join(S.show(a)[:40] for a in e.args)) for e in foreign][:4], cfg=cfg, where=where)
         # 4. status assigned exactly once, right constant
@@ -79,9 +79,12 @@ def check(ctx, F, cfg, P="C17", clauses="all"):
             good = n == ("lit", 1)
             msg = "on the %s path the message is resized to %s, expected exactly 1 byte" % (v.kind, S.show(n))
         else:
-            body = m.sym.proj(v.enc.term, S.OK, 0)
-            good = bool(n) and n[0] == "bin" and n[1] == "+" and sorted([n[2], n[3]], key=repr) == sorted([("lit", 1), ("call", R.LEN, (body,), (n[2] if n[2][0] == "call" else n[3])[3] if (n[2][0] == "call" or n[3][0] == "call") else None)], key=repr)
-            msg = "on the Ok path the message is resized to %s, expected <written slice>.len() + 1" % S.show(n)
+            def same_len(t):
+                if v.body_len is not None and v.body_len[0] == "call":
+                    return t[0] == "call" and t[1] == R.LEN and t[2] == v.body_len[2]      # <written slice>.len(), whatever its call site
+                return t == v.body_len                                                      # the byte count returned by the writer form
+            good = bool(n) and n[0] == "bin" and n[1] == "+" and ((n[2] == ("lit", 1) and same_len(n[3])) or (n[3] == ("lit", 1) and same_len(n[2])))
+            msg = "on the Ok path the message is resized to %s, expected <length of the encoded body> + 1" % S.show(n)
         ctx.oblige(key + "|final-length", good, msg, cfg=cfg, where=H.line(last.node))
         # 6. results of the resizes are discarded, never unwrapped
         for i, rz in enumerate((ops[0], last)):
@@ -132,7 +135,7 @@ def run(ctx):
                        "the status byte and the body tail are extracted and decided clause by clause (grow first, split, only the encoder writes the tail, status assigned "
                        "exactly once with the right constant, final resize last with the right length, resize results discarded).")
     ctx.rule = "obligation = (path, clause) per configuration; paths = response-variant arm x {Ok&[0xA0], Ok, Err}"
-    ctx.trusted = ["cbor-smol 0.5.1: cbor_serialize returns Err (not a truncated prefix) when the body does not fit, and Ok(prefix written)", "heapless 0.7.17 Vec::resize_default"]
+    ctx.trusted = ["cbor-smol 0.5.1: cbor_serialize returns Err (not a truncated prefix) when the body does not fit, and Ok(prefix written)", "cbor-smol 0.5.1: cbor_serialize_to(value, &mut <&mut [u8]>) writes at the front of the slice and returns the number of bytes written (at most its length), Err when the body does not fit", "heapless 0.7.17 Vec::resize_default"]
     ctx.assumptions = ["buffer capacity N >= 1 (the property's precondition)", "slice.len() <= N - 1 so slice.len() + 1 cannot overflow"]
     spec = json.load(open(os.path.join(VERIF, "spec", "ctap2_messages.json")))
     for cfg, F in ctx.facts.items():
@@ -153,6 +156,14 @@ def run(ctx):
                     if x.get("k") == "mcall" and x.get("callee") == "core::option::Option::<T>::unwrap" and H.strip_block(x["recv"]).get("callee") == R.SPLIT and all(v.buf_ops[:1] and R.is_grow(m, v.buf_ops[0]) for v in m.views):
                         # every path grows the buffer to capacity before the split (clause grow-first above)
                         return "B-pre", "split_first_mut() after resize_default(capacity()) is Some for N >= 1 (the property's precondition)"
+            if kind == "call:core::ops::index::Index::index":
+                # data[..written] / data[..0]: the count returned by cbor_serialize_to(_, <writer over this very tail>) is at most its length
+                from .oblig_mono import nodes_covering
+                inodes = nodes_covering(fn, ev["sp"], ("index",))[:1]
+                reads = [e for v in m.views for e in v.body_reads if any(e.node is x for x in inodes)]
+                others = [e for v in m.views for e in v.effects if e.kind == "index" and any(e.node is x for x in inodes) and e not in v.body_reads]
+                if reads and not others and all(v.enc is None or v.enc.callee in R.CBOR_SER_COUNT and len(v.enc.args) == 2 and v.enc.args[1] == v.data_place for v in m.views if any(e in v.body_reads for e in reads)):
+                    return "B-contract", "tail[..n] with n the byte count cbor_serialize_to returned for a writer over this tail (cbor-smol contract: n <= tail.len()), or 0"
             if kind == "call:" + R.SPLIT_AT:
                 for x in nodes:
                     if x.get("k") == "mcall" and x.get("callee") == R.SPLIT_AT and all(v.buf_ops[:1] and R.is_grow(m, v.buf_ops[0]) and len(v.split) == 1 and v.split[0].node is x for v in m.views):
@@ -161,8 +172,11 @@ def run(ctx):
                 # every pair of operand terms seen on the paths: a slice length or a small literal on each side
                 def small(t):
                     return t[0] == "lit" and isinstance(t[1], int) and 0 <= t[1] <= 0xFFFF
+                counts = {v.body_len for v in m.views if v.enc is not None and v.enc.callee in R.CBOR_SER_COUNT}
+
                 def length(t):
-                    return t[0] == "call" and t[1] in ("core::slice::<impl [T]>::len",)
+                    # a slice length, or the byte count the writer form of the encoder returned (at most the tail's length)
+                    return t[0] == "call" and t[1] in ("core::slice::<impl [T]>::len",) or t in counts
                 seen = m.sym.arith[ev["sp"]]
                 if all(op == "+" and ((small(l) and (small(r) or length(r))) or (small(r) and length(l))) for op, l, r in seen):
                     return "B-len1", "on every path the sum is <slice length or literal> + <literal <= 65535> (%d operand pairs): a slice length is at most isize::MAX" % len(seen)
